@@ -94,6 +94,10 @@ def c10(ctx):
     rep.rule("C10.R2", "no other nondeterminism source in the library: time, threads, process id, random hasher state, randomness, "
              "addresses ({:p}, pointer->integer casts), environment other than args; observable {:?} output never formats a type whose "
              "closure contains a hash container")
+    # state kept between two runs in one process is a nondeterminism source of its own: the same text, linted twice with one Linter,
+    # must give the same report (rule shared with C19.R6)
+    from .c19 import fresh_state
+    fresh_state(ctx, "C10.R4")
     rep.rule("C10.R3", "sorting: unstable sorts are accepted only on whole items (equal means identical); keyed unstable sorts need a "
              "reviewed entry; the lint report is sorted with the stable slice::sort_by_key")
     rep.trust("std and the dependencies are themselves deterministic; hash containers are order-insensitive when used by key only")
